@@ -167,6 +167,11 @@ class Machine:
             else:
                 raise Fault("unknown-form", "mov %r" % (ops,))
             return
+        if mn == "xchg":
+            d, s = ops
+            assert d[0] == "reg" and s[0] == "reg" and d[1] == 0 and s[1] == 0 and self.arch != 2
+            R[0][d[3]], R[0][s[3]] = R[0][s[3]], R[0][d[3]]
+            return
         if mn == "and":
             d, s = ops
             assert d[0] == "reg" and d[1] == 0 and s[0] == "imm" and self.arch != 2
@@ -332,6 +337,9 @@ def judge(cmd, ans, seed):
             out.append((key(k), desc("sp inside the body is %#x, not aligned to the promised %d" % (spb, fa))))
         if arch == 2 and spb % 16 != 0:
             out.append((key("body-sp-misaligned"), desc("AArch64 sp inside the body %#x not 16-byte aligned" % spb)))
+        # what the frame promises is its final_stack_alignment(): a requested local/call alignment above it is not promised
+        lalign = min(lalign, fa) if lalign else lalign
+        calign = min(calign, fa) if calign else calign
         if lsize > 0 and lalign > 1 and (spb + r["local_off"]) % lalign != 0:
             k = "dynamic-alignment-ignored" if (arch == 2 and fa > 16) else "local-area-misaligned"
             out.append((key(k), desc("local area at %#x not aligned to %d" % (spb + r["local_off"], lalign))))
@@ -437,6 +445,118 @@ def judge(cmd, ans, seed):
         out2.append((k, w))
     out = out2
     # de-duplicate keys (first description wins)
+    seen, res = set(), []
+    for k, w in out:
+        if k not in seen:
+            seen.add(k); res.append((k, w))
+    return res
+
+
+def judge_args(cmd, ans, seed):
+    """frame + argument copies (harness command A): prolog ; emit_args_assignment ; [every argument at its destination] ;
+    poisoning body ; epilog ; round trip.  Returns list of (key, description)."""
+    parts = ans.split(" | ")
+    if len(parts) != 4 or not parts[0].startswith("A 0"):
+        return []
+    c = cmd.split()
+    arch, plat, cc = int(c[1]), int(c[2]), int(c[3])
+    attrs = int(c[5])
+    r = parse_answer(parts[1])
+    if r is None or r["P_berr"] or r["E_berr"]:
+        return []
+    st = parts[2].split(" ", 3)
+    if st[1] != "0":
+        return [("refused", "emit_args_assignment returned error %s" % st[1])]
+    asg = [] if st[3] == "-" else st[3].split(";")
+    xt = parts[3].split()
+    n = int(xt[1])
+    specs = [tuple(int(x) for x in xt[2 + 4 * i: 6 + 4 * i]) for i in range(n)]
+    an = ["x86", "x64", "a64"][arch]
+    ws = 4 if arch == 0 else 8
+    ras = 0 if arch == 2 else ws
+    has_fp = bool(attrs & 1)
+    fp = 29 if arch == 2 else 5
+    spid = 31 if arch == 2 else 4
+    key = lambda k: "C07/%s/args/%s" % (an, k)
+    desc = lambda s: "%s -> %s" % (cmd, s)
+    rng = random.Random((seed * 7919) ^ zlib.crc32(cmd.encode()))
+    m = Machine(arch, ws)
+    wmask = (1 << (8 * ws)) - 1
+    for i in range(32 if arch == 2 else (8 if arch == 0 else 16)):
+        m.regs[0][i] = rng.getrandbits(8 * ws)
+    for i in range(32 if arch != 0 else 8):
+        m.regs[1][i] = rng.getrandbits(128)
+    for i in range(8):
+        m.regs[2][i] = rng.getrandbits(64); m.regs[3][i] = rng.getrandbits(64)
+    sp0 = (0x7FFF0000 if arch == 0 else 0x7FFFFFFF0000) - r["natural"] * rng.randrange(0, 64) - ras
+    m.regs[0][spid] = sp0
+    ra = rng.getrandbits(8 * ws - 1) | 1
+    if arch == 2:
+        m.regs[0][30] = ra
+    else:
+        m.store(sp0, ws, ra)
+    vals = [(0xA0000000 + 0x1111 * (i + 1)) & wmask for i in range(n)]
+    for i, (sk, sv, dk, dv) in enumerate(specs):
+        if sk == 0:
+            m.regs[0][sv] = vals[i]
+        else:
+            m.store(sp0 + ras + sv, ws, vals[i])
+    m.written.clear()
+    entry = [dict(g) for g in m.regs]
+    out = []
+    try:
+        for s in r["P"]:
+            m.step(*parse_inst(s))
+        spb = m.regs[0][spid]
+        for s in asg:
+            m.step(*parse_inst(s))
+        if m.regs[0][spid] != spb:
+            out.append((key("copies-change-sp"), desc("the argument copies change sp")))
+        for i, (sk, sv, dk, dv) in enumerate(specs):
+            got = m.regs[0][dv] & wmask if dk == 0 else m.load(spb + dv, ws)
+            if got != vals[i]:
+                out.append((key("argument-not-at-destination"), desc("argument %d (value %#x, passed in %s) is not at its destination %s after prolog + argument copies (found %#x)"
+                                                                   % (i, vals[i], ("reg %d" % sv) if sk == 0 else ("stack+%d" % sv), ("reg %d" % dv) if dk == 0 else ("[sp+%d]" % dv), got))))
+                break
+            if dk == 1 and not (r["local_off"] <= dv and dv + ws <= r["local_off"] + max(int(c[10]), 8 * n + 8)):
+                out.append((key("destination-outside-local-area"), desc("destination slot [sp+%d] outside the local area" % dv)))
+        above = [a for a in m.written if a >= sp0]
+        if above:
+            out.append((key("writes-into-caller-frame"), desc("prolog/argument copies store at entry sp %+d" % (min(above) - sp0))))
+        lsize = max(int(c[10]), 8 * n + 8)
+        for a in range(spb, spb + int(c[12])):
+            m.mem[a] = 0xA5
+        for a in range(spb + r["local_off"], spb + r["local_off"] + min(lsize, 4096)):
+            m.mem[a] = 0x5A
+        for a in range(spb - 160, spb):
+            m.mem[a] = 0xC3
+        for g in range(4):
+            for i in list(m.regs[g].keys()):
+                if (r["dirty"][g] >> i) & 1 and not (g == 0 and (i == spid or (has_fp and i == fp))):
+                    m.regs[g][i] = rng.getrandbits(128 if g == 1 else 8 * ws if g == 0 else 64)
+        for s in r["E"]:
+            m.step(*parse_inst(s))
+        if m.retto != ra:
+            out.append((key("wrong-return-address"), desc("returns to %s instead of %#x" % (m.retto, ra))))
+        want_sp = sp0 + ras + (r["argstack"] if callee_pops(arch, plat, cc) else 0)
+        if m.regs[0][spid] != want_sp:
+            out.append((key("wrong-sp-after-return"), desc("sp after return is entry%+d, required entry%+d" % (m.regs[0][spid] - sp0, want_sp - sp0))))
+        for g in range(4):
+            width = r["srsize"][g] if g != 0 else ws
+            msk = (1 << (8 * width)) - 1 if width else 0
+            for i in sorted(m.regs[g].keys()):
+                if g == 0 and i == spid:
+                    continue
+                if (r["preserved"][g] >> i) & 1 and (m.regs[g][i] & msk) != (entry[g][i] & msk):
+                    k = "callee-saved-not-restored"
+                    if g == 0 and any(sk == 0 and sv == i for (sk, sv, dk, dv) in specs):
+                        k = "preserved-argument-register-clobbered"     # conventions whose ARGUMENT registers are callee-saved too (LightCall; a64 non-cdecl)
+                    out.append((key(k), desc("callee-saved register group %d id %d not restored (a register the argument copies use is not in the frame's dirty set)" % (g, i))))
+                    break
+    except Fault as f:
+        out.append((key(f.key), desc(f.what)))
+    except (AssertionError, KeyError, ValueError, IndexError) as e:
+        out.append((key("unknown-form"), desc("instruction form outside the repertoire: %r" % (e,))))
     seen, res = set(), []
     for k, w in out:
         if k not in seen:
